@@ -30,7 +30,7 @@
    * `version` records which of the four repaired defects are present, so that the same
      model states the theorems about the current code and the witnesses about the old one. *)
 From Coq Require Import NArith List Bool.
-From V Require Import spec.Ledger.
+From V Require Import spec.Ledger gen.GenAlloc.
 Import ListNotations.
 Open Scope N_scope.
 
@@ -122,6 +122,10 @@ Definition free_slot (f : fld) (s : st) : st :=
 Definition move (f g : fld) (s : st) : st :=
   let (e, l) := s in (upd (upd e f []) g (slot e f), l_drop (slot e g) l).
 
+(* a local holding blocks goes out of scope *)
+Definition drop_slot (f : fld) (s : st) : st :=
+  let (e, l) := s in (upd e f [], l_drop (slot e f) l).
+
 (* ------------------------------------------------------------------ parameters *)
 
 Inductive pname := PQuality | PLgwin | PLgblock | PSizeHint | PQ95 | PCatable | PLargeWindow | POther.
@@ -164,8 +168,8 @@ Definition ensure_init (s : st) : st :=
 (* ChooseHasher *)
 Definition choose_hasher (q : N) (q95 : bool) (hint w : N) (h : hparams) : hparams :=
   if (10 <=? q) && negb q95 then mkhp 10 (h_block_bits h) (h_bucket_bits h)
-  else if q =? 10 then mkhp 9 8 15
-  else if q =? 9 then mkhp 9 8 15
+  else if q =? 10 then mkhp 9 h9_block_bits h9_bucket_bits
+  else if q =? 9 then mkhp 9 h9_block_bits h9_bucket_bits
   else if (q =? 4) && (2 ^ 20 <=? hint) then mkhp 54 (h_block_bits h) (h_bucket_bits h)
   else if q <? 5 then mkhp q (h_block_bits h) (h_bucket_bits h)
   else if w <=? 16 then
@@ -177,12 +181,12 @@ Definition choose_hasher (q : N) (q95 : bool) (hint w : N) (h : hparams) : hpara
 (* BrotliMakeHasher: what each Initialize* asks the allocator for, in order *)
 Definition hasher_blocks (h : hparams) (w : N) : list (ety * N) :=
   let t := h_type h in
-  if t =? 2 then [(U32, 65537 + 8)]
-  else if t =? 3 then [(U32, 65538 + 8)]
-  else if t =? 4 then [(U32, 131072 + 8)]
-  else if t =? 54 then [(U32, 1048580 + 8)]
-  else if t =? 9 then [(U16, 2 ^ 15); (U32, 2 ^ 8 * 2 ^ 15)]
-  else if t =? 10 then [(U32, 2 ^ 17); (U32, 2 ^ w * 2)]
+  if t =? 2 then [(U32, h2_buckets)]
+  else if t =? 3 then [(U32, h3_buckets)]
+  else if t =? 4 then [(U32, h4_buckets)]
+  else if t =? 54 then [(U32, h54_buckets)]
+  else if t =? 9 then [(U16, 2 ^ h9_bucket_bits); (U32, 2 ^ h9_block_bits * 2 ^ h9_bucket_bits)]
+  else if t =? 10 then [(U32, 2 ^ h10_bucket_bits); (U32, 2 ^ w * 2)]
   else (* 5, 6 and the fall-back InitializeH6 *)
     [(U32, 2 ^ h_bucket_bits h * 2 ^ h_block_bits h); (U16, 2 ^ h_bucket_bits h)].
 
@@ -219,14 +223,51 @@ Fixpoint bal (n : nat) (tr : list tstep) : bool :=
 
 (* ------------------------------------------------------------------ code versions *)
 
+Definition fld_of_code (c : N) : fld :=
+  match c with
+  | 0 => FStorage | 1 => FCommands | 2 => FRing | 3 => FHasher | 4 => FLargeTable
+  | 5 => FCommandBuf | 6 => FLiteralBuf | _ => LNew
+  end.
+
+(* what the release sites of the source do; `current` is read off /repo by tools/gen_alloc.py
+   (coq/gen/GenAlloc.v), `legacy` is the tree before the four C09 repairs *)
 Record version := mkver {
-  v_debug : bool;               (* cfg!(debug_assertions) in set_custom_dictionary_with_... *)
-  v_dict_frees_old : bool;      (* fix 58cb8c9 *)
-  v_ffi_destroy_cleans : bool;  (* fix b261039 *)
-  v_single_cleans : bool;       (* fix 4992104 *)
-  v_oneshot_own_alloc : bool }. (* fix 29febca *)
-Definition current (debug : bool) : version := mkver debug true true true true.
-Definition legacy (debug : bool) : version := mkver debug false false false false.
+  v_debug : bool;                 (* cfg!(debug_assertions) in set_custom_dictionary_with_... *)
+  v_cleanup_fields : list fld;    (* the fields cleanup() hands back (canonical order) *)
+  v_destroy_cleans : bool;        (* enc::encode::BrotliEncoderDestroyInstance calls cleanup *)
+  v_dict_frees_old : bool;        (* fix 58cb8c9 *)
+  v_dict_destroys_orig : bool;    (* DestroyHasher(m16, &mut orig_hasher) in the debug path *)
+  v_ffi_destroy_cleans : bool;    (* fix b261039 *)
+  v_single_cleans : bool;         (* fix 4992104 *)
+  v_oneshot_own_alloc : bool;     (* fix 29febca *)
+  v_oneshot_destroys : bool;
+  v_writer_drop_destroys : bool;
+  v_reader_drop_destroys : bool;
+  v_copy_returns_destroy : bool;  (* every `return` inside the copy loop destroys the instance first *)
+  v_copy_tail_destroys : bool;    (* ... and so does the code after the loop *)
+  v_part_destroys : bool;         (* compress_part destroys the instance before building its result *)
+  v_part_error_frees_chunk : bool;
+  v_stitch_same_alloc : bool;     (* chunk freed through the allocator that came back with it, which is state.m8 *)
+  v_clone_same_alloc : bool;      (* precomputed hashers are cloned with the receiving thread's allocator *)
+  v_slice_frees_input : bool;
+  v_multi_restores_input : bool }. (* fix 2822ce4: a failed chunk no longer makes CompressMulti return
+                                      before the input is handed back *)
+
+Definition current (debug : bool) : version :=
+  mkver debug (map fld_of_code cleanup_frees) destroy_instance_calls_cleanup
+        dict_frees_old_hasher dict_destroys_orig_hasher ffi_destroy_cleans ffi_single_cleans
+        oneshot_hasher_from_state_alloc oneshot_destroys writer_drop_destroys reader_drop_destroys
+        (copy_returns =? copy_returns_destroying) copy_tail_destroys
+        part_destroys_before_result part_error_frees_chunk
+        (stitch_frees_with_result_alloc && part_returns_state_alloc && stitch_hands_back_alloc)
+        multi_clones_with_thread_alloc slice_frees_input_with_alloc0 multi_restores_input_on_error.
+
+Definition legacy (debug : bool) : version :=
+  let c := current debug in
+  mkver debug (v_cleanup_fields c) (v_destroy_cleans c) false (v_dict_destroys_orig c) false false false
+        (v_oneshot_destroys c) (v_writer_drop_destroys c) (v_reader_drop_destroys c)
+        (v_copy_returns_destroy c) (v_copy_tail_destroys c) (v_part_destroys c)
+        (v_part_error_frees_chunk c) (v_stitch_same_alloc c) (v_clone_same_alloc c) (v_slice_frees_input c) false.
 
 (* ------------------------------------------------------------------ phases of a stream call *)
 
@@ -245,7 +286,7 @@ Inductive fphase := FpStorage (size : N) | FpTable (htsize : N) | FpTemp (c : ca
 Definition of_fphase (p : fphase) : phase :=
   match p with FpStorage s => PhStorage s | FpTable h => PhTable h | FpTemp c k => PhTemp c k end.
 
-Definition two17 : N := 2 ^ 17.   (* kCompressFragmentTwoPassBlockSize *)
+Definition two17 : N := 2 ^ two_pass_block_bits.   (* kCompressFragmentTwoPassBlockSize *)
 
 Inductive op :=
 | OSetParam (p : pname) (v : N)
@@ -344,13 +385,12 @@ Definition set_dict (ver : version) (size oinst : N) (oshapes : list (ety * N)) 
     if v_debug ver || negb has_opt then
       let s5 := if has_opt then move FHasher LNew s4 else s4 in
       let s6 := do_phase PhHasherSetup s5 in
-      if has_opt then free_slot LNew s6 else s6
+      if has_opt then (if v_dict_destroys_orig ver then free_slot LNew s6 else drop_slot LNew s6) else s6
     else s4.
 
-(* cleanup, in the order of the source *)
-Definition cleanup (s : st) : st :=
-  free_slot FLiteralBuf (free_slot FCommandBuf (free_slot FLargeTable (free_slot FHasher
-    (free_slot FRing (free_slot FCommands (free_slot FStorage s)))))).
+(* BrotliEncoderDestroyInstance -> cleanup: free_cell(take(field)) for each listed field *)
+Definition cleanup (ver : version) (s : st) : st :=
+  if v_destroy_cleans ver then fold_left (fun s f => free_slot f s) (v_cleanup_fields ver) s else s.
 
 (* the state value goes away: every field still holding a block drops it *)
 Definition drop_enc (s : st) : ledger := l_drop (owned (fst s)) (snd s).
@@ -363,7 +403,7 @@ Definition run_op (ver : version) (o : op) (s : st) : st :=
   | OStream phs => do_phases phs (ensure_init s)
   | OStreamFast n phs => stream_fast n phs (ensure_init s)
   | OTakeOutput => s
-  | OCleanup => cleanup s
+  | OCleanup => cleanup ver s
   end.
 Definition run (ver : version) (h : list op) (s : st) : st := fold_left (fun s o => run_op ver o s) h s.
 
@@ -371,7 +411,7 @@ Definition run (ver : version) (h : list op) (s : st) : st := fold_left (fun s o
    BrotliEncoderDestroyInstance before the value is dropped. *)
 Definition instance_life (ver : version) (inst : N) (h : list op) (clean : bool) (l : ledger) : ledger :=
   let s := run ver h (new_enc inst, l) in
-  drop_enc (if clean then cleanup s else s).
+  drop_enc (if clean then cleanup ver s else s).
 
 (* ------------------------------------------------------------------ wrappers and entry points *)
 
@@ -380,23 +420,27 @@ Definition instance_life (ver : version) (inst : N) (h : list op) (clean : bool)
    remaining calls of that method do not happen - a shorter history); Drop always runs and
    always calls BrotliEncoderDestroyInstance. *)
 Definition writer_life (ver : version) (q w : N) (calls : list op) : ledger :=
-  instance_life ver 0 (OSetParam PQuality q :: OSetParam PLgwin w :: calls) true empty_ledger.
+  instance_life ver 0 (OSetParam PQuality q :: OSetParam PLgwin w :: calls)
+                (v_writer_drop_destroys ver) empty_ledger.
 (* CompressorReaderCustomIo: same shape; StateWrapper::drop destroys the instance, also when
    into_inner takes the reader apart. *)
 Definition reader_life (ver : version) (q w : N) (calls : list op) : ledger :=
-  instance_life ver 0 (OSetParam PQuality q :: OSetParam PLgwin w :: calls) true empty_ledger.
+  instance_life ver 0 (OSetParam PQuality q :: OSetParam PLgwin w :: calls)
+                (v_reader_drop_destroys ver) empty_ledger.
 
-(* BrotliCompressCustomIoCustomDict: the three ways out of the loop *)
-Inductive copy_exit := XWriteError | XNoProgress | XFinished.
-Definition copy_exit_destroys (x : copy_exit) : bool :=
+(* BrotliCompressCustomIoCustomDict: the ways out of the loop - two `return`s inside it (the sink
+   failed; the sink accepted zero bytes) and two `break`s (no progress / read error; finished) *)
+Inductive copy_exit := XWriteError | XZeroWrite | XNoProgress | XFinished.
+Definition copy_exit_destroys (ver : version) (x : copy_exit) : bool :=
   match x with
-  | XWriteError => true      (* Err(e) => { BrotliEncoderDestroyInstance(s); ... return Err(e) } *)
-  | XNoProgress => true      (* if !result { ... break } ... BrotliEncoderDestroyInstance(s) *)
-  | XFinished => true        (* if fin { break } ... BrotliEncoderDestroyInstance(s) *)
+  | XWriteError => v_copy_returns_destroy ver
+  | XZeroWrite => v_copy_returns_destroy ver
+  | XNoProgress => v_copy_tail_destroys ver
+  | XFinished => v_copy_tail_destroys ver
   end.
 Definition copy_life (ver : version) (params : list op) (dict : list op) (calls : list op)
            (x : copy_exit) : ledger :=
-  instance_life ver 0 (params ++ dict ++ calls) (copy_exit_destroys x) empty_ledger.
+  instance_life ver 0 (params ++ dict ++ calls) (copy_exit_destroys ver x) empty_ledger.
 
 (* encoder_compress: instance 0 is the caller's allocator, instance 1 the `empty_m8` placeholder
    that sits in `*m8` while the real one lives in the state *)
@@ -408,7 +452,8 @@ Definition oneshot_life (ver : version) (q w : N) (trivial : bool) (calls : list
                  [OInstallHasher (if v_oneshot_own_alloc ver then 0 else 1)
                                  (hasher_blocks (choose_hasher 10 true 0 22 default_hp) 22)]
                else [] in
-    instance_life ver 0 (pre ++ OSetParam PQuality q' :: OSetParam PLgwin w :: calls) true empty_ledger.
+    instance_life ver 0 (pre ++ OSetParam PQuality q' :: OSetParam PLgwin w :: calls)
+                  (v_oneshot_destroys ver) empty_ledger.
 
 (* compress_part for thread `i` (allocator instance `i`) *)
 Record thread_spec := mkthread {
@@ -422,9 +467,11 @@ Record thread_spec := mkthread {
 Definition compress_part (ver : version) (i : N) (oshapes : list (ety * N)) (t : thread_spec)
            (l : ledger) : list blk * ledger :=
   let (chunk, l1) := l_alloc i U8 (t_max t) l in
-  let dict := if i =? 0 then [] else [OSetDict (t_dict t) i oshapes (t_rings t)] in
-  let l2 := instance_life ver i (t_params t ++ dict ++ t_calls t) true l1 in
-  if t_ok t then (chunk, l2) else ([], l_free i chunk l2).
+  let oinst := if v_clone_same_alloc ver then i else i + 1000 in
+  let dict := if i =? 0 then [] else [OSetDict (t_dict t) oinst oshapes (t_rings t)] in
+  let l2 := instance_life ver i (t_params t ++ dict ++ t_calls t) (v_part_destroys ver) l1 in
+  if t_ok t then (chunk, l2)
+  else ([], if v_part_error_frees_chunk ver then l_free i chunk l2 else l_drop chunk l2).
 
 Fixpoint run_threads (ver : version) (oshapes : list (ety * N)) (i : N) (ts : list thread_spec)
          (l : ledger) : list (N * list blk) * ledger :=
@@ -442,13 +489,19 @@ Definition stitch (back : N -> N) (cs : list (N * list blk)) (l : ledger) : ledg
 
 Definition multi_life (ver : version) (oshapes : list (ety * N)) (ts : list thread_spec)
            (l : ledger) : ledger :=
-  let (cs, l1) := run_threads ver oshapes 0 ts l in stitch (fun i => i) cs l1.
+  let (cs, l1) := run_threads ver oshapes 0 ts l in
+  stitch (fun i => if v_stitch_same_alloc ver then i else i + 1000) cs l1.
 
 (* CompressMultiSlice copies the input through allocator 0 first and frees it there afterwards *)
 Definition multi_slice_life (ver : version) (oshapes : list (ety * N)) (input_len : N)
            (ts : list thread_spec) : ledger :=
   let (inp, l0) := l_alloc 0 U8 input_len empty_ledger in
-  l_free 0 inp (multi_life ver oshapes ts l0).
+  let l1 := multi_life ver oshapes ts l0 in
+  let failed := existsb (fun t => negb (t_ok t)) ts in
+  if failed && negb (v_multi_restores_input ver) then
+    l_drop inp l1     (* the early return left the input inside the spawner's lock, which is dropped;
+                         CompressMultiSlice then panics on owned_input.unwrap() *)
+  else if v_slice_frees_input ver then l_free 0 inp l1 else l_drop inp l1.
 
 (* a worker that is lost (join fails) takes its result with it, and the early return of
    CompressMulti leaves the results of the later workers unjoined: modelled as the chunks
@@ -456,7 +509,7 @@ Definition multi_slice_life (ver : version) (oshapes : list (ety * N)) (input_le
 Definition multi_life_joinfail (ver : version) (oshapes : list (ety * N)) (ts : list thread_spec)
            (k : nat) : ledger :=
   let (cs, l1) := run_threads ver oshapes 0 ts empty_ledger in
-  stitch (fun i => i) (firstn k cs) l1.
+  stitch (fun i => if v_stitch_same_alloc ver then i else i + 1000) (firstn k cs) l1.
 
 (* C ABI: the state block itself goes through the callbacks when they are given; one opaque =
    one instance.  `state_size` is size_of::<BrotliEncoderState>() *)
